@@ -93,7 +93,7 @@ UNITS['U09m'] = dict(
     not_covered=['Combinable<OrderedFloat<f64>> (floating point)'])
 
 UNITS['U19'] = dict(
-    kind='verus', tpl='contracts/U19_select.vx', timeout_s=600,
+    kind='verus', tpl='contracts/U19_select.vx', timeout_s=600, fallback='U19b',
     title='row-selection kernels: NullVecLike non-null count (slice), Filter, NullableFilter, FilterNullable, NullableFilterNullable, IsNull, IsNotNull, Compact, CompactWithNullable, CompactNullable, CompactNullableNullable, NonzeroCompact, NonzeroCompactNullable, Exists (execute bodies)',
     assumptions=['R6: scratchpad bindings lifted to parameters (A-planner: distinct BufferRefs do not alias)',
                  'R5: `x > T::zero()` on the planner\'s integer types abstracted to trait Pos { is_pos }, cast_usize to trait GroupIndex',
@@ -109,6 +109,14 @@ UNITS['U26'] = dict(
                  'R17: the comparator closures get parameter types and a requires/ensures annotation (rows in range; result == row_ord); closure bodies are the real ones',
                  'trait Comparator: ordering() == spec ord(), is_less_than() == spec asc(); the per-type impls are covered by U12k'],
     not_covered=['NormalFormQuery::run: which sorts are requested as stable and in which key order', 'TopN', 'consistency of ord() with a total order (U12k per type)'])
+
+UNITS['U19b'] = dict(
+    kind='kani', crate='kani/U19b', timeout_s=600, mem_gb=8,
+    title='BOUNDED fallback for the NullVecLike slice of U19 (runs when U19 is undecided, e.g. the arm was rewritten with iterator adapters, and in the thorough tier): NonNullElementCount arm over filters of up to 10 rows',
+    harnesses=[dict(name='proofs::counts_true_and_present_rows', bounded='filters of <= 10 rows, any bytes, any presence bitmap, unwind 12', unwind=12, clause='count == number of rows with byte != 0 and present bit set', fn='NullVecLike::execute[slice NonNullElementCount]'),
+               dict(name='proofs::vx_canary', expect_fail=True)],
+    assumptions=['stand-ins: Scratchpad::get_nullable hands out (data, present); the operator input handle is a unit value'],
+    not_covered=['filters longer than 10 rows'])
 
 UNITS['U03'] = dict(
     kind='verus', tpl='contracts/U03_stringpack.vx',
